@@ -123,6 +123,25 @@ ADDED = {
     'C19': ' Payload strings include every character str.splitlines() breaks at; histories include overlapping receive() iterations on one reader.',
 }
 
+ADDED4 = {
+    'C01': ' @override rules against their documented expansion (plain, twice, then based on, then included).',
+    'C02': ' Repeated rule inheritance (child < bs2 < bs) and both spellings of the name decorator (@name, @isname).',
+    'C03': ' Rule names that are Python keywords/builtins (random + two exhaustive families); a level whose prefix-operator alternative precedes its recursive ones (shape prefalt: growth inside growth).',
+    'C04': ' Parses also start at the grammar\'s own first rule, which may be @nostak (empty rule stack under trace).',
+    'C06': ' A further flavour keeps data attributes named like rules next to _default.',
+    'C07': ' One walker object walks the same trees twice.',
+    'C09': ' Word-led comment syntaxes (REM ..., dnl ... lnd) beside the punctuation-led ones.',
+    'C10': ' A semantics object on which no action is found followed by one with actions (pairs repeated up to 6 x); ignorecase=False at parse time with keyword case variants; node types named like the object-model machinery\'s own classes (SynthNode, Node).',
+    'C12': ' (a) also asks a clone moved to each offset for lineinfo()/lineat()/poscol() without an explicit offset.',
+    'C13': ' Path-like parameters at later positions and as keyword values; other renderings of the same model (lean, railroads, str) requested before pretty(); constants with backticks; the pattern ".", literal TAB and line breaks in non-verbose patterns.',
+    'C14': ' Thread tier: one model / one parse result converted to JSON by 4 threads at once (switch interval 1 us), each result compared with the lone conversion.',
+    'C17': ' Format methods taken from a literal and called elsewhere (comprehension variable over an AST key, key= of a pure builtin); frame walks taken hop by hop from rebound AST keys.',
+    'C18': ' One exception class whose instances differ in picklability (portable one first); TypeError and a user subclass among the raised exceptions.',
+    'C20': ' The repr round trip of the text is judged for every text without control characters (category Cc), braces, colons, backslashes and quotes - not only for printable text.',
+}
+for _k, _v in ADDED4.items():
+    ADDED[_k] = ADDED.get(_k, '') + _v
+
 NOT_YET = 'check not built yet in this session; see DESIGN.md §3 for the intended oracle'
 
 
@@ -139,7 +158,7 @@ def main():
             evidence_file=f'evidence/{pid}.json',
             replay_cmd_template=f'./check {pid} quick --replay {{path}}',
             engine='vf',
-            level_claimed=dict(category='exploration', text=text + ADDED.get(pid, ''), design_ref=ref + (', A.7' if pid in ADDED else '')),
+            level_claimed=dict(category='exploration', text=text + ADDED.get(pid, ''), design_ref=ref + (', A.7' if pid in ADDED else '') + (', A.8' if pid in ADDED4 else '')),
             level_note=note,
             technique=tech,
         ))
